@@ -351,6 +351,8 @@ impl Gen {
                             0 => 0,
                             1 => 255,
                             2 => 32,
+                            // longer than the 32 octets RFC 4034 allows a window: the length octet can say up to 255
+                            3 => self.rng.range(33, 255) as usize,
                             _ => self.rng.range(1, 8) as usize,
                         };
                         let mut bm = self.rng.bytes(len);
